@@ -3,8 +3,8 @@
 (* C42, message level: one state per field list fs of message M.  Fields   *)
 (* are drawn without repetition from a collision vocabulary, each as a     *)
 (* plain optional field ("f"), a repeated field ("r") or a member of the   *)
-(* oneof ("m"); lists up to MaxAny use all kinds, longer lists up to       *)
-(* MaxPlain only plain fields.  For every list TLC emits one tour case per *)
+(* oneof ("m"); lists up to MaxAny use the kinds KindsAny, longer lists up *)
+(* to MaxPlain only plain fields.  For every list TLC emits a tour case per *)
 (* API level and per choice of oneof name / nested message / nested enum   *)
 (* (only where a oneof exists: these interact through wrapper types).      *)
 (* The order of the fields matters (makeNameUnique and                     *)
@@ -12,7 +12,7 @@
 (***************************************************************************)
 EXTENDS GoNamesCases, Json
 
-CONSTANTS FieldVocab, OneofVocab, NestedVocab, EnumVocab, Levels, MaxAny, MaxPlain
+CONSTANTS FieldVocab, OneofVocab, NestedVocab, EnumVocab, Levels, KindsAny, MaxAny, MaxPlain
 
 Codes(x) ==
   CASE x = "foo" -> <<102, 111, 111>>
@@ -41,14 +41,15 @@ Codes(x) ==
 VARIABLE fs                                   \* sequence of [n |-> name, mem |-> BOOLEAN, rep |-> BOOLEAN]
 Init == fs = <<>>
 Used(f) == {f[i].n : i \in 1..Len(f)}
+AnyMem(f) == \E i \in 1..Len(f) : f[i].mem
 AllPlain(f) == \A i \in 1..Len(f) : ~f[i].mem /\ ~f[i].rep
-Kinds(f) == IF Len(f) < MaxAny THEN {"f", "m", "r"}
+Kinds(f) == IF Len(f) < MaxAny THEN KindsAny
             ELSE IF Len(f) < MaxPlain /\ AllPlain(f) THEN {"f"} ELSE {}
 Next == \E x \in FieldVocab, k \in Kinds(fs) :
           /\ Codes(x) \notin Used(fs)
+          /\ (k = "m" /\ AnyMem(fs)) => fs[Len(fs)].mem          \* the members of the oneof are declared consecutively
           /\ fs' = Append(fs, [n |-> Codes(x), mem |-> (k = "m"), rep |-> (k = "r")])
 
-AnyMem(f) == \E i \in 1..Len(f) : f[i].mem
 \* the declarations completed from a field list
 CasesOf(f) ==
   IF ~AnyMem(f)
@@ -60,31 +61,29 @@ CasesOf(f) ==
                           : ns \in opt(NestedVocab, Used(f) \cup {o}) }
                   : o \in on }
 
-\* ---- laws on the specification itself (every reachable field list, every completion)
-\* the enumerated declarations are well-formed protobuf
-GeneratesWellFormed == \A e \in CasesOf(fs) : WellFormed(MsgOf(e))
+\* ---- laws on the specification itself (every reachable field list, every completion; one pass per declaration)
 \* the makeNameUnique post-condition that does hold: no struct field of the open API is a reserved method name,
 \* and the builder never has a field called Build
-ReservedAvoided == \A e \in CasesOf(fs) : \A n \in {Naming(MsgOf(e))} :
-                      /\ \A i \in 1..Len(n.go) : n.go[i] \notin ReservedNames
+ReservedAvoided(n) == /\ \A i \in 1..Len(n.go) : n.go[i] \notin ReservedNames
                       /\ \A i \in 1..Len(n.cc) : n.cc[i] # S_Build
-\* all generated names are Go identifiers, struct fields / methods of the non-opaque APIs are exported
-NamesAreIdentifiers == \A e \in CasesOf(fs) : \A c \in {MsgOf(e)} : \A n \in {Naming(c)} :
-                             /\ \A i \in 1..Len(n.go) : IsExportedGoIdent(n.go[i])
-                             /\ \A i \in 1..Len(n.cc) : IsExportedGoIdent(n.cc[i])
-                             /\ \A x \in Range(MembersN(c, n)) \cup Range(BuilderN(c, n)) \cup Range(PkgN(c, n)) : IsGoIdent(x)
+\* all generated names are Go identifiers; field names and camelCase names are exported
+NamesAreIdentifiers(c, n) ==
+  /\ \A i \in 1..Len(n.go) : IsExportedGoIdent(n.go[i])
+  /\ \A i \in 1..Len(n.cc) : IsExportedGoIdent(n.cc[i])
+  /\ \A x \in Range(MembersN(c, n)) \cup Range(BuilderN(c, n)) \cup Range(PkgN(c, n)) : IsGoIdent(x)
 \* every repetition the specification predicts is one of the known naming defects (no unexplained collision in the
-\* enumerated space); and the explanation is never vacuous: an explained repetition really has two declarations
-AllExplained == \A e \in CasesOf(fs) : \A w \in Why(MsgOf(e)) : w.cause # "unexplained" /\ Len(w.roles) >= 2
-\* the open API, which has no oneof (no "mem" field) and no ProtoReflect field, is collision free: makeNameUnique works
-\* for plain fields
-OpenPlainDistinct == \A e \in CasesOf(fs) :
-                        (e.level = "open" /\ ~AnyMem(fs) /\ \A i \in 1..Len(fs) : GoCamelCase(fs[i].n) # S_ProtoReflect)
-                        => Distinct(MsgOf(e))
-\* the opaque API without a oneof collides only through the camel-case suffixing
-OpaquePlainOnlySuffix == \A e \in CasesOf(fs) : (e.level = "opaque" /\ ~AnyMem(fs)) =>
-                            \A w \in Why(MsgOf(e)) : w.cause = "camelcase-suffix-collides"
-Laws == GeneratesWellFormed /\ ReservedAvoided /\ NamesAreIdentifiers /\ AllExplained /\ OpenPlainDistinct /\ OpaquePlainOnlySuffix
+\* enumerated space), and an explained repetition really has two declarations
+AllExplained(w) == \A x \in w : x.cause # "unexplained" /\ Len(x.roles) >= 2
+\* the open API without a oneof and without a field called ProtoReflect is collision free (makeNameUnique works for
+\* plain fields); the opaque API without a oneof collides only through the camel-case suffixing
+OpenPlainDistinct(c, w) == (c.level = "open" /\ ~AnyMem(fs) /\ \A i \in 1..Len(fs) : GoCamelCase(fs[i].n) # S_ProtoReflect)
+                           => w = {}
+OpaquePlainOnlySuffix(c, w) == (c.level = "opaque" /\ ~AnyMem(fs)) => \A x \in w : x.cause = "camelcase-suffix-collides"
+Laws == \A e \in CasesOf(fs) : \A c \in {MsgOf(e)} :
+          /\ WellFormed(c)                                   \* the enumerated declarations are well-formed protobuf
+          /\ \A n \in {Naming(c)} :
+                /\ ReservedAvoided(n) /\ NamesAreIdentifiers(c, n)
+                /\ \A w \in {WhyN(c, n)} : AllExplained(w) /\ OpenPlainDistinct(c, w) /\ OpaquePlainOnlySuffix(c, w)
 
 Emit == \A e \in CasesOf(fs') : PrintT("@@" \o ToJson(e @@ [exp |-> Expect(e), pred |-> Pred(e)]))
 =============================================================================
